@@ -22,7 +22,7 @@ def bits(k, free='x'):
 
 
 def build(thorough):
-    T = 1200 if thorough else 240
+    T = 1200 if thorough else 400
     obs = []
 
     def add(func, label, env, t=T):
@@ -30,15 +30,15 @@ def build(thorough):
 
     all_rt = ['ofv', 'aic', 'bic:mixed', 'bic:fixed', 'bic:random', 'bic:iiv']
     if thorough:
-        plan = [(1, all_rt, 0), (2, all_rt, 0), (3, all_rt, 2), (4, ['ofv', 'aic', 'bic:mixed'], 5)]
+        plan = [(1, all_rt, 0), (2, all_rt, 0), (3, all_rt, 4), (4, ['ofv', 'aic', 'bic:mixed'], 5)]
     else:
-        plan = [(1, ['ofv'], 0), (2, all_rt, 0), (3, ['ofv', 'aic', 'bic:mixed'], 2)]
+        plan = [(1, ['ofv'], 0), (2, all_rt, 0), (3, ['ofv', 'aic', 'bic:mixed'], 4)]
     for nc, rts, pins in plan:
         for rt in rts:
             for ok in bits(pins):
                 env = dict(VH_NC=nc, VH_RT=rt, VH_OK=ok)
                 label = f'NC={nc},{rt}' + (f',ok={ok}' if ok else '')
-                if nc >= 4 and ok.count('1') >= 4:
+                if nc >= 3 and ok.count('1') >= nc:
                     # the expensive corner (nearly all models eligible): also split on cut-off / penalties present
                     for cp in bits(2):
                         add('rank', label + f',cut={cp[0]},pen={cp[1]}', dict(env, VH_CUT=cp[0], VH_PEN=cp[1]))
@@ -48,13 +48,13 @@ def build(thorough):
     if thorough:
         lrt = [(1, 'base', cm, '', 0) for cm in (0, 1, 2)]
         lrt += [(2, par, cm, ok, 0) for par in ('base', 'chain', 'sym', 'symobj') for cm in (0, 1, 2)
-                for ok in bits(1)]
+                for ok in bits(3 if par.startswith('sym') else 1)]
         lrt += [(3, par, cm, ok, 1) for par, cm in (('base', 0), ('chain', 1)) for ok in bits(4)]
     else:
         lrt = [(1, 'base', cm, '', 0) for cm in (0, 1, 2)]
-        lrt += [(2, 'base', cm, '', 0) for cm in (0, 1, 2)]
-        lrt += [(2, 'chain', 1, '', 0)]
-        lrt += [(2, 'sym', 0, ok, 0) for ok in bits(2)] + [(2, 'symobj', 2, ok, 0) for ok in bits(2)]
+        lrt += [(2, 'base', cm, ok, 0) for cm in (0, 1, 2) for ok in bits(1)]
+        lrt += [(2, 'chain', 1, ok, 0) for ok in bits(1)]
+        lrt += [(2, 'sym', 0, ok, 0) for ok in bits(3)] + [(2, 'symobj', 2, ok, 0) for ok in bits(3)]
     for nc, par, cm, ok, nonan in lrt:
         add('rank_lrt', f'NC={nc},parents={par},cutoff_mode={cm}' + (f',ok={ok}' if ok else '')
             + (',no_nan' if nonan else ''),
@@ -71,7 +71,9 @@ def build(thorough):
     for f in ('rank', 'rank_refusals', 'lrt_two', 'strictness', 'strictness_edges', 'strictness_float'):
         obs.append(Ob(f'{f}__twin', H, f + '__twin', 120, kind='twin', env=tw))
     obs.append(Ob('rank_lrt__twin', H, 'rank_lrt__twin', 120, kind='twin', env=dict(VH_NC=2, VH_RT='lrt')))
-    obs.sort(key=lambda o: (o.kind == 'twin', -int(o.env.get('VH_NC', 0)), o.func != 'rank_lrt'))
+    # most expensive first: many candidates, many eligible models
+    obs.sort(key=lambda o: (o.kind == 'twin', -int(o.env.get('VH_NC', 0)) - str(o.env.get('VH_OK', '')).count('1'),
+                            o.func != 'rank_lrt'))
     return obs, plan, lrt, slevel
 
 
